@@ -321,6 +321,25 @@ var (
 	globalStatsOnce sync.Once
 )
 
+// runGuarded executes s.Run and turns a panic that escapes it into a failure when the innermost frame outside the runtime
+// belongs to the library under test (harness identifiers start with "vf"): the harness calls library code outside its own
+// guarded sections too (warming pools, preparing inputs), and a panic there - typically state that an earlier case left
+// behind, which the case alone need not reproduce - is still the library's panic. A panic with no library frame is a bug of
+// the harness and is passed on (the run then ends without a verdict).
+func runGuarded(s Spec, c interface{}, r *Rec) (f *Failure) {
+	defer func() {
+		if v := recover(); v != nil {
+			site := PanicSite(v, "github.com/Shopify/sarama.", "vf", "internal/vfcore", "internal/vfref")
+			if strings.HasSuffix(site, "@?") {
+				panic(v)
+			}
+			f = Failf(site, "the library panicked outside the call under judgement (possibly because of state an earlier case left behind; the case alone may not reproduce it): %v", v)
+			f.History = Stacks()
+		}
+	}()
+	return s.Run(c, r)
+}
+
 // Main runs the check described by s under testing.T.
 func Main(t *testing.T, s Spec) {
 	if s.MaxSamples == 0 {
@@ -341,7 +360,7 @@ func Main(t *testing.T, s Spec) {
 			_ = os.WriteFile(filepath.Join(envFailDir, "current-shard"+envShard+".json"), marshal(c), 0o644)
 		}
 		r := &Rec{}
-		f := s.Run(c, r)
+		f := runGuarded(s, c, r)
 		st.add(s.ID, c, r, s.MaxSamples)
 		if f == nil {
 			return
@@ -388,7 +407,7 @@ func Direct(t *testing.T, s Spec) func(c interface{}) {
 	ks := loadKnown(s.ID)
 	return func(c interface{}) {
 		r := &Rec{}
-		f := s.Run(c, r)
+		f := runGuarded(s, c, r)
 		st.add(s.ID, c, r, s.MaxSamples)
 		if f == nil {
 			return
@@ -441,7 +460,7 @@ func replay(t *testing.T, s Spec, st *stats, ks []known) {
 			t.Fatalf("replay: cannot decode case: %v", err)
 		}
 		r := &Rec{}
-		f := s.Run(derefCase(c), r)
+		f := runGuarded(s, derefCase(c), r)
 		st.add(s.ID, c, r, s.MaxSamples)
 		if f != nil {
 			failed++
